@@ -81,6 +81,8 @@ def gen_actor(rng, max_iters=120, dims=(1, 2, 3, 4, 5), families=None, shipped_p
         spec["r_type"] = rng.choice(["np.float64", "0d"])         # r read from a numpy array / np.loadtxt
     if lower is not None and rng.random() < 0.04:
         spec["start_point"] = [l + (h - l) * float("%.3g" % rng.random()) for l, h in zip(lower, upper)]
+    if rng.random() < 0.04:
+        spec["n_discrete"] = rng.randint(1, 2)      # the problem also declares discrete variables (the method ignores them)
     return spec
 
 
@@ -129,6 +131,11 @@ def gen_evq(rng, aid, spec):
     a pure query API (C17), legal at any moment."""
     lower, upper = spec.get("lower"), spec.get("upper")
     u = rng.random()
+    if rng.random() < 0.2:
+        # a read of the search information instead: covering-interval lookup, or a walk abandoned after a few items
+        if rng.random() < 0.6:
+            return {"a": aid, "op": "sdq", "q": "find", "x": rng.choice([rng.random(), rng.random(), 0.0, 0.999])}
+        return {"a": aid, "op": "sdq", "q": "partial_walk", "stop": rng.randint(0, 4)}
     if lower is None or u < 0.45:
         x = rng.choice([0.5, 0.5, 0.0, 1.0, rng.random(), rng.randrange(1024) / 1024.0])
         return {"a": aid, "op": "evq", "q": "image", "x": x}
